@@ -24,7 +24,8 @@ What is proved, about the model in `Model/Peers.lean` (which transcribes `pubsub
   deliveries and `GetPeers` calls, monotone clock, each delivery at most `d` late):
   `presence_by_history`, `stale_expires`, `live_persists`, `self_persists`, `converges`
   (+ `converges_list` for the literal `GetPeers` result, `callback_view_converges` for what a
-  registered change callback — the sharder's reload — saw last), for **any address** of the live nodes
+  registered change callback — the sharder's reload — saw last; `converges_after_publish_failures`
+  with `publish_failure_does_not_change_period` for transient publish failures), for **any address** of the live nodes
   (`live_persists_any_address`), ids comma-free.  The constants are those of the code
   (`Gen/Peers.lean`), the side condition `refresh + jitter + d < TTL` is discharged on them.
 -/
@@ -505,6 +506,75 @@ theorem ticker_publishes_every (P : Pubs) (n : Node) (S I : Int) (hI : 0 < I) (h
     omega
   · rw [Int.toNat_of_nonneg hq, Int.add_mul, Int.mul_comm ((τ - S) / I) I]
     omega
+
+/-! ### transient publish failures -/
+
+/-- **publish_failure_does_not_change_period** — whatever `Publish` returned, the heartbeat keeps
+its period. -/
+theorem publish_failure_does_not_change_period (b : Beat) (published : Bool) :
+    (b.step published).period = b.period := rfl
+
+/-- … so after any sequence of successes and failures the period is the one drawn at the start and
+the next tick is that many periods later: the attempts of a node started at `S` are at
+`S + I`, `S + 2I`, … regardless of their outcomes. -/
+theorem heartbeat_instants (b : Beat) (outcomes : List Bool) :
+    (b.run outcomes).period = b.period ∧ (b.run outcomes).next = b.next + (outcomes.length : Int) * b.period := by
+  induction outcomes generalizing b with
+  | nil => simp [Beat.run]
+  | cons o os ih =>
+    have := ih (b.step o)
+    simp only [Beat.run, List.foldl_cons] at this ⊢
+    refine ⟨this.1, ?_⟩
+    rw [this.2]
+    simp only [Beat.step, List.length_cons, Int.natCast_succ, Int.add_mul]
+    omega
+
+/-- **publishes_every_after_failures** — a heartbeat with period `I ≤ G`, finitely many of whose
+publishes failed, the last failure no later than `F`: from `F` on the node is on the record at
+least every `G` ("publishes every ≤ G" — the hypothesis `converges` asks of a live node). -/
+theorem publishes_every_after_failures (P : Pubs) (n : Node) (S I G F : Int) (ok : Nat → Bool)
+    (hI : 0 < I) (hIG : I ≤ G) (hSF : S ≤ F)
+    (hb : Heartbeat P n S I ok)
+    (hfail : ∀ i : Nat, ok i = false → S + ((i : Int) + 1) * I ≤ F) :
+    PublishesEvery P n F G := by
+  intro τ hτ
+  have hq : 0 ≤ (τ - S) / I := Int.ediv_nonneg (by omega) (by omega)
+  have hr0 : 0 ≤ (τ - S) % I := Int.emod_nonneg _ (by omega)
+  have hr1 : (τ - S) % I < I := Int.emod_lt_of_pos _ hI
+  have hdiv : (τ - S) % I + I * ((τ - S) / I) = τ - S := Int.emod_add_mul_ediv _ _
+  -- the first attempt strictly after τ
+  have hs : S + ((((τ - S) / I).toNat : Int) + 1) * I = τ - (τ - S) % I + I := by
+    rw [Int.toNat_of_nonneg hq, Int.add_mul, Int.mul_comm ((τ - S) / I) I]
+    omega
+  refine ⟨S + ((((τ - S) / I).toNat : Int) + 1) * I, by omega, by omega, ?_⟩
+  apply hb
+  cases hok : ok ((τ - S) / I).toNat with
+  | true => rfl
+  | false =>
+    have := hfail _ hok
+    omega
+
+/-- **converges_after_publish_failures** — `converges` for clusters whose live nodes suffered
+finitely many failed publishes: take `T0` no earlier than the last membership change *and* the
+last failed publish; every live node runs a heartbeat with a period `≤ G` that failures do not
+change.  After `T0 + d + ttl` every node up by `T0` lists exactly the live nodes. -/
+theorem converges_after_publish_failures (ttl d G : Int) (P : Pubs) (live : List Node) (self : Node)
+    (startT : Int) (evs : List Ev) (t T0 : Int)
+    (hT : Timed d startT evs t) (hF : Fair P d startT evs t) (hstart : startT ≤ T0)
+    (hlive : ∀ n ∈ live, comma ∉ n.id ∧ OnlyOwn P n ∧
+      ∃ (S I : Int) (ok : Nat → Bool), 0 < I ∧ I ≤ G ∧ S ≤ T0 ∧ Heartbeat P n S I ok ∧
+        ∀ i : Nat, ok i = false → S + ((i : Int) + 1) * I ≤ T0)
+    (hdead : ∀ k, (∀ n ∈ live, n.id ≠ k) → Silent P k T0)
+    (hside : G + d < ttl) (hd : 0 ≤ d)
+    (ht : T0 + d + ttl < t) (k : Bytes) :
+    lookup (stateAt ttl self startT evs t) k = liveAddr live k := by
+  apply converges ttl d G P live self startT evs t T0 hT hF hstart _ hdead hside hd ht
+  intro n hn
+  obtain ⟨hcf, hown, S, I, ok, hI, hIG, hS, hb, hfail⟩ := hlive n hn
+  exact ⟨hcf, publishes_every_after_failures P n S I G T0 ok hI hIG hS hb hfail, hown⟩
+
+-- non-vacuity: a heartbeat of period 3 whose second and third publishes fail keeps its instants
+example : (Beat.run ⟨3, 3⟩ [true, false, false, true]) = ⟨3, 15⟩ := by decide
 
 /-- the interval `Ready` computes is positive and at most `codeGap` -/
 theorem ticker_interval_ok (jitter : Int) (h0 : 0 ≤ jitter) (h1 : jitter < Gen.Peers.refreshJitterBound) :
